@@ -20,6 +20,12 @@ CHECKS = {
  "C16": dict(text="SchemaCtx.tla is the SchemaPrintingContext state machine (collected definitions, in-progress marks, one action per schemaWithContext call, traversal transcribed from BaseRefRuntype.schema / ensureContextualDefinition incl. exceptions). TLC checks the design invariant (nothing left in progress, refs closed, definitions fresh and order independent, same outcome as a fresh context) on every call sequence up to the bound, with and without overrides; every sequence is replayed on a real context under three configurations and Trace_Ctx.tla requires each logged call to be a Call(p) step of the model (same collected names, same outcome) and judges the logged definitions against fresh-context definitions, $ref resolution and multiset-equality of exports.",
              ref="4/C16", note="Trusted: TLC; the fixed project of SchemaCtx.tla stands for 'sets of parsers sharing named and recursive types'; JSON equality of definitions.",
              tech="TLC model checking of the context state machine + replay of every call sequence + trace validation"),
+ "C08": dict(text="Rewrite.tla is a state machine over programs whose actions are the rewrites named in the property (permutations of union/intersection members, properties, declarations; introducing, inlining, renaming aliases; generic identity wrapper; parentheses, readonly, comments, JSDoc; interface <-> object type; nesting / flattening unions; extracting variants; duplicating members). TLC enumerates every program reachable from 22 seed programs within MaxSteps and checks that each rule preserves the reference membership (so an alarm is never caused by one of my rules); every program is compiled and observed, and Trace_Rewrite.tla requires the validate vectors (default and strict) and hash256 of a class to equal those of its seed.",
+             ref="4/C08", note="Trusted: TLC; equality of validators is observed on the seed's type-directed probes plus the common pool.",
+             tech="TLC-enumerated rewrite classes (state machine over programs) replayed through the compiler; trace validated by TLC"),
+ "C13": dict(text="Three parts. Writer: Sha256Writer.tla models buffering, block boundaries, FIPS padding and finished-ness around an uninterpreted compression function; TLC checks its invariants on all sequences of <= MaxWrites writes over 16 boundary sizes and every behaviour is replayed on the real Hash256Writer, whose bufferLength / bytesHashed / chunk count are validated after every step by Trace_Writer.tla and whose digest must equal node:crypto's. Separation: all TypeGen programs are observed on a common pool and Trace_Sep.tla requires equal digests to imply equal validate vectors. Invariance: the rewrite classes of C08 must have equal hash256 (and equal hash() under the rewrites C13 names).",
+             ref="4/C13 and 1.3", note="Trusted: TLC; node:crypto for the digest value (bits of SHA-256 are outside TLA+); separation only sees behavioural differences on the common pool.",
+             tech="TLC model of the streaming writer + behaviour replay + trace validation; digest separation and rewrite invariance judged by TLC"),
 }
 NA = []
 def main():
